@@ -92,7 +92,7 @@ def knn_cases(draw):
     return dict(mode=mode, data=pts, values=vals, query=qs, k=draw(st.integers(1, n)), reduction=draw(st.sampled_from(list(REDS))),
                 dshape=draw(st.sampled_from(blocks.shape_options(n))), qshape=draw(st.sampled_from(blocks.shape_options(len(qs)))),
                 extra=draw(st.booleans()), orders=draw(build.orders_strategy()), container=draw(st.sampled_from(build.CONTAINERS)), int_data=draw(st.booleans()),
-                coord_dtype=coord_dtype)
+                coord_dtype=coord_dtype, table=draw(st.sampled_from(build.TABLES)), qtable=draw(st.sampled_from(build.TABLES)))
 
 
 def check_knn(case, ctx):
@@ -103,14 +103,14 @@ def check_knn(case, ctx):
     dshape, qshape = case["dshape"], case["qshape"]
     lay = build.Lay(case.get("orders"))
     cdt = case.get("coord_dtype") or "float64"
-    coords = (lay(d[:, 0], dshape, cdt), lay(d[:, 1], dshape, cdt)) + ((np.zeros(dshape),) if case["extra"] else ())
+    coords = build.table_views(lay(d[:, 0], dshape, cdt), lay(d[:, 1], dshape, cdt), case.get("table")) + ((np.zeros(dshape),) if case["extra"] else ())
     kn = vd.KNeighbors(k=k, reduction=REDS[case["reduction"]]) if (k, case["reduction"]) != (1, "mean") else vd.KNeighbors()
     P = lambda a: build.present(a, case.get("container"))  # noqa: E731
     if case.get("int_data"):
         vals = np.round(vals)  # integer-valued data in an integer dtype: the mean of k of them is generally not an integer
     vals_arr = lay(vals, dshape, "int64" if case.get("int_data") else "float64")
     kn.fit(tuple(P(c) for c in coords), P(vals_arr))
-    qcoords = (P(lay(q[:, 0], qshape, cdt)), P(lay(q[:, 1], qshape, cdt)))
+    qcoords = tuple(P(c) for c in build.table_views(lay(q[:, 0], qshape, cdt), lay(q[:, 1], qshape, cdt), case.get("qtable")))
     pred = np.asarray(kn.predict(qcoords))
     ctx.check(pred.shape == tuple(qshape), "prediction shape %s, query shape %s", pred.shape, tuple(qshape))
     D = dist_matrix(q, d)
